@@ -31,6 +31,8 @@ func checkC10(c *Ctx, r *Report) {
 	algorithmCoverage(c, r, "C10.R5.alg-coverage", []string{"sign", "RRSIG.Verify", "AlgorithmToHash"})
 	r.rule("C10.R5.alg-hash-table", 8, "AlgorithmToHash maps each algorithm number to the hash its RFC specifies")
 	algorithmHashTable(c, r, "C10.R5.alg-hash-table")
+	r.rule("C10.R3.canonical-fold", 1, "CanonicalName (owner, signer and RDATA names in the signed data) lower-cases exactly A-Z")
+	foldRangeRule(c, r, "C10.R3.canonical-fold", "CanonicalName", "names containing the letter left out are signed in the case they were written in: signatures depend on letter case")
 	r.rule("C10.R1.name-eq", 1, "the owner / signer name pre-checks compare through equal(), which folds exactly A-Z on both sides")
 	foldRule(c, r, "C10.R1.name-eq")
 	r.rule("C10.R3.copy-faithful", 81, "the copy rawSignatureData canonicalises carries field i of the record in field i")
